@@ -95,6 +95,11 @@ def gen_plan(seed: int, tier: str, focus: str = "c10") -> dict:
             op = {"op": "event", "n": 1, "ids": [[1, 10]]}
         op["t"] = t
         ops.append(op)
+        if op["op"] in ("close", "shutdown") and r.random() < 0.6:
+            # a trigger in the very ticks in which close()/shutdown() is suspended (same virtual instant, n loop iterations later)
+            comp = r.choice([{"op": "desc_update", "addrs": addrs, "s": r.randrange(1, 4)}, {"op": "get", "ids": [[1, 10]]}, {"op": "subscribe", "ids": [[1, 10]]}])
+            comp.update(t=t, ticks=r.choice([0, 1, 1, 2, 3, 4, 5, 8]))
+            ops.append(comp)
     ops.sort(key=lambda o: o["t"])
     # make sure advertised addresses that the workload switches to exist on the network
     for a in ADDRS[:4]:
